@@ -79,16 +79,21 @@ Theorem C11_csv_profiles : forall rows vrows name,
   In name (map MatrixProfile_name (Fleet_profiles (Problem_fleet (read_csv rows vrows)))) <->
   exists r, In r vrows /\ vr_profile r = name.
 Proof. exact csv_profiles. Qed.
-(* "is a valid problem" fails: vehicle ids are "<PROFILE>_<seq>", so two vehicle rows with one profile collide (E1301) *)
-Theorem C11_csv_valid_refuted :
-  exists vrows, NoDup (map vr_id vrows) /\ ~ NoDup (all_vehicle_ids (read_csv [] vrows)).
-Proof. exact csv_valid_refuted. Qed.
-Theorem C11_csv_shared_profile_collides : forall ord pord rows vs1 r1 vs2 r2,
-  vr_profile r1 = vr_profile r2 ->
-  (1 <= Z.to_nat (usizev (vr_amount r1)))%nat -> (1 <= Z.to_nat (usizev (vr_amount r2)))%nat ->
-  ~ NoDup (all_vehicle_ids (read_csv_ord ord pord rows (vs1 ++ r1 :: vs2 ++ [r2]))).
-Proof. exact csv_shared_profile_collides. Qed.
-(* the import is not total on the documented tables: DEMAND = i32::MIN overflows in `abs` (exactly then) *)
+(* vehicle ids are "<ID>_<seq>" (since the repair 9df6aa4 of finding C11-F1): seq = 1..AMOUNT, and they are pairwise
+   distinct whenever the table's type ids are — for all profiles (shared or not) and all amounts (E1301 cannot arise
+   from a table that passes E1300) *)
+Theorem C11_csv_vehicle_ids_shape : forall r x,
+  In x (vehicle_ids_of r) <-> exists k, (1 <= k <= Z.to_nat (usizev (vr_amount r)))%nat /\ x = vehicle_id (vr_id r) k.
+Proof. exact csv_vehicle_ids_shape. Qed.
+Theorem C11_csv_vehicle_ids_distinct : forall ord pord rows vrows,
+  NoDup (map vr_id vrows) -> NoDup (all_vehicle_ids (read_csv_ord ord pord rows vrows)).
+Proof. exact csv_vehicle_ids_distinct. Qed.
+Theorem C11_csv_shared_profile_nonvacuous :
+  all_vehicle_ids (read_csv [] [wit_vrow "vehicle1"; wit_vrow "vehicle2"])
+  = ["vehicle1_1"; "vehicle1_2"; "vehicle2_1"; "vehicle2_2"]%string.
+Proof. exact csv_shared_profile_witness. Qed.
+(* what is still refuted: the import is not total on the documented tables — DEMAND = i32::MIN overflows in `abs`
+   (exactly then; finding C11-F2).  That the imported problem passes the WHOLE validator is the campaign's oracle. *)
 Theorem C11_csv_panics_iff : forall rows,
   csv_panics rows = true <-> exists r, In r rows /\ i32v (jr_demand r) = -2147483648.
 Proof. exact csv_panics_iff. Qed.
